@@ -193,6 +193,19 @@ def gen_pairs(ctx, rng, count, ref=None):
                 opts["start"] = st_.strftime("%Y-%m-%dT%H:%M:%SZ")
         else:
             opts["start"] = start
+        if i % 8 == 6:
+            # an explicit start written with a UTC offset (negative and positive, whole and fractional hours):
+            # the start travels through the URLs of the manifest and of its PatchLocation, so printing and
+            # parsing it must be inverse to each other – checked by patching the T1 document
+            off = [-210, -570, 330, -30, 765, -720, -345, 60][(i // 8) % 8]
+            age = rng.choice([rng.randrange(depth + 5, 4000), rng.randrange(4000, 10 ** 6)])
+            st_ = (t1 - datetime.timedelta(seconds=age)).replace(microsecond=0)
+            loc = st_ + datetime.timedelta(minutes=off)
+            opts["start"] = loc.strftime("%Y-%m-%dT%H:%M:%S") + f"{'%2B' if off >= 0 else '-'}{abs(off) // 60:02d}:{abs(off) % 60:02d}"
+            man = "hand_made.mpd"
+            opts["patch"] = "1"
+            delta = datetime.timedelta(seconds=rng.choice([8, 24, 3.5]))
+            kind = "offset-start"
         if ref and i % 8 == 3:
             # clock phase at a loop boundary of the source: the time-shift window starts within the last
             # moments of a loop (where the segment search walks past the last segment and wraps), for any
